@@ -35,8 +35,14 @@ def observables(queries):
         'components': lambda m: [sorted(c) for c in m.connected_components],
         'lin_hash': lambda m: sorted(m.linear_hash_set()),
         'lin_bits': lambda m: sorted(m.linear_bit_set()),
+        'lin_hash_3_4': lambda m: sorted(m.linear_hash_set(3, 4)),
+        'lin_hash_2_6_pairs0': lambda m: sorted(m.linear_hash_set(2, 6, 0)),
+        'morgan_hash_2_3': lambda m: sorted(m.morgan_hash_set(2, 3)),
+        'lin_bits_4096_3': lambda m: sorted(m.linear_bit_set(1, 4, 4096, 3)),
         'morgan_hash': lambda m: sorted(m.morgan_hash_set()),
         'morgan_bits': lambda m: sorted(m.morgan_bit_set()),
+        'lin_hash_smiles': lambda m: sorted(m.linear_hash_smiles().items()),    # lists as returned: order matters
+        'morgan_hash_smiles': lambda m: sorted(m.morgan_hash_smiles().items()),
         'matches': matches,
         'pack': pack,
         'hash_eq': lambda m: [n for n, a in m.atoms() if a.stereo is not None] + [sorted((n, k)) for n, k, b in m.bonds() if b.stereo is not None],
@@ -99,6 +105,9 @@ OPS = {
     'kekule_thiele': lambda m, o, q: (m.kekule(), m.thiele()),
     'explicify_implicify': lambda m, o, q: (m.explicify_hydrogens(), m.implicify_hydrogens()),
     'neutralize': lambda m, o, q: m.neutralize(),
+    'standardize_charges': lambda m, o, q: m.standardize_charges(),
+    'fix_resonance': lambda m, o, q: m.fix_resonance(),
+    'check_thiele': lambda m, o, q: m.thiele(),
     'fix_stereo': lambda m, o, q: m.fix_stereo(),
     'scoped_search': _scoped_search,
     'failed_txn_delete_bond': _failed_txn(_del_first_bond),
@@ -135,6 +144,8 @@ def main():
                 m = smiles(s)
                 pv = evaluate(m, obs, perm)
                 rec['cached_differs'] += [k + ':perm' for k in keys if pv[k] != base[k]]
+                rv = evaluate(smiles(s), obs, keys[::-1])
+                rec['cached_differs'] += [k + ':reversed' for k in keys if rv[k] != base[k]]
                 again = evaluate(m, obs)
                 rec['cached_differs'] += [k + ':again' for k in keys if again[k] != base[k]]
                 cp = evaluate(m.copy(), obs)
@@ -155,6 +166,14 @@ def main():
                         rec['copy_differs'] += [f'{name}-vs-fresh:{k}' for k in keys if a[k] != base[k]]
                     if not (m == m.copy()):
                         rec['copy_differs'].append(f'{name}:eq_hash')
+                    # the RESULT of an operation must not depend on what was cached before it was called
+                    m2 = smiles(s)
+                    try:
+                        op(m2, obs, queries)
+                        c = evaluate(m2, obs)
+                        rec['cached_differs'] += [f'{k}:result-of-{name}-on-primed-vs-unprimed-object' for k in keys if a[k] != c[k]]
+                    except Exception:
+                        pass
         except Exception as e:
             rec['error'] = type(e).__name__ + ': ' + str(e)[:100]
         print(json.dumps(rec))
